@@ -20,6 +20,8 @@ class Facts:
             self.buildgraph = json.load(fh)
         self.lib = self.crates["lib"]
         self.bin = self.crates["bin"]
+        self.lib.facts = self
+        self.bin.facts = self
         cpath = os.path.join(directory, "xt_controls-lib.json")
         self.controls = None
         if os.path.exists(cpath):
@@ -784,6 +786,22 @@ def _try_kind(f):
     return None
 
 
+# def -> (variant index of the receiver on which the closure runs, 'replaces' when the call then yields
+# the closure's value / 'maps' when control also continues normally). Result: Ok=0 Err=1; Option: None=0 Some=1.
+CLOSURE_RUNS_ON = {
+    "std::result::Result::<T, E>::unwrap_or_else": (1, "replaces"),
+    "std::result::Result::<T, E>::or_else": (1, "replaces"),
+    "std::result::Result::<T, E>::map_err": (1, "replaces"),
+    "std::result::Result::<T, E>::map": (0, "replaces"),
+    "std::result::Result::<T, E>::and_then": (0, "replaces"),
+    "std::option::Option::<T>::unwrap_or_else": (0, "replaces"),
+    "std::option::Option::<T>::or_else": (0, "replaces"),
+    "std::option::Option::<T>::ok_or_else": (0, "replaces"),
+    "std::option::Option::<T>::map": (1, "replaces"),
+    "std::option::Option::<T>::and_then": (1, "replaces"),
+}
+
+
 class PathSens:
     """Variant/constant-aware reachability over a Super graph.
 
@@ -915,8 +933,23 @@ class PathSens:
             f = fn_of(t)
             dest = t["dest"]
             dkey = (path, dest["l"])
+            # std combinators whose closure runs exactly on one variant of the receiver
+            run_on = CLOSURE_RUNS_ON.get(f["def"]) if f else None
+            recv = None
+            if run_on is not None and t["args"] and is_place(t["args"][0]) and not t["args"][0]["p"]["pr"]:
+                rf = facts.get((path, t["args"][0]["p"]["l"]))
+                if rf and rf[0] == "var":
+                    recv = rf[1]
+            has_may = any(lab == "maycall" for lab, _ in edges)
             for lab, succ in edges:
                 f2 = dict(facts)
+                if recv is not None and has_may:
+                    runs = recv == run_on[0]
+                    if lab == "maycall" and not runs:
+                        continue
+                    if lab != "maycall" and runs and run_on[1] == "replaces":
+                        # the closure's value is the call's value: control continues from the closure's return
+                        continue
                 if lab in ("call", "maycall"):
                     npath = succ[0]
                     callee = sup.body_of(succ)
@@ -1060,3 +1093,116 @@ def strace(sup, node, op, extra=()):
         cur = cnode
     tr.origin_node = cur
     return tr
+
+
+# --------------------------------------------------------------------------- forward value flow on a supergraph
+
+FORWARD_PASS = (
+    "std::ops::Try::branch",
+    "std::result::Result::<T, E>::map_err",
+    "std::result::Result::<T, E>::map",
+    "std::result::Result::<T, E>::and_then",
+    "std::result::Result::<T, E>::and",
+    "std::result::Result::<T, E>::as_ref",
+    "std::result::Result::<T, E>::as_mut",
+    "std::option::Option::<T>::as_ref",
+    "std::option::Option::<T>::as_mut",
+    "std::option::Option::<T>::as_deref",
+    "std::option::Option::<T>::map",
+    "std::option::Option::<T>::copied",
+    "std::option::Option::<T>::cloned",
+    "std::convert::Into::into",
+    "std::convert::From::from",
+    "std::clone::Clone::clone",
+    "std::ops::Deref::deref",
+    "std::ops::DerefMut::deref_mut",
+)
+
+
+def carriers(sup, node, local, extra_pass=()):
+    """Set of (path, local) that carry (a view of / a conversion of) the value held by `local` in the
+    context of `node`: through moves, references, field/downcast projections, pass-through calls,
+    arguments of inlined callees and return values of inlined callees."""
+    start = (node[0], local)
+    seen = {start}
+    work = [start]
+    nodes = list(sup.nodes())
+    by_path = {}
+    for n in nodes:
+        by_path.setdefault(n[0], []).append(n)
+    guard = 0
+    while work and guard < 400:
+        guard += 1
+        path, l = work.pop()
+        for n in by_path.get(path, []):
+            b = sup.body_of(n)
+            blk = b.blocks[n[1]]
+            for s in blk["stmts"]:
+                if s["k"] != "assign" or s["p"]["pr"]:
+                    continue
+                rv = s["rv"]
+                src = None
+                if rv["k"] in ("use", "cast") and is_place(rv["op"]):
+                    src = rv["op"]["p"]["l"]
+                elif rv["k"] in ("ref", "rawptr", "copyforderef"):
+                    src = rv["p"]["l"]
+                elif rv["k"] == "aggregate":
+                    for o in rv["ops"]:
+                        if is_place(o) and o["p"]["l"] == l:
+                            src = l
+                if src == l:
+                    k = (path, s["p"]["l"])
+                    if k not in seen:
+                        seen.add(k)
+                        work.append(k)
+            t = blk["term"]
+            if t["k"] == "call":
+                f = fn_of(t)
+                argpos = [i for i, a in enumerate(t["args"]) if is_place(a) and a["p"]["l"] == l]
+                if argpos:
+                    edges = sup.edges(n)
+                    inl = [m for lab, m in edges if lab == "call"]
+                    if inl:
+                        for i in argpos:
+                            k = (inl[0][0], i + 1)
+                            if k not in seen:
+                                seen.add(k)
+                                work.append(k)
+                    elif f and (f["def"] in FORWARD_PASS or any(p in f["def"] for p in extra_pass)) and 0 in argpos and not t["dest"]["pr"]:
+                        k = (path, t["dest"]["l"])
+                        if k not in seen:
+                            seen.add(k)
+                            work.append(k)
+            if t["k"] == "return" and path and l == 0:
+                caller_id, cbb, _ = path[-1]
+                ppath = path[:-1]
+                caller = sup.body_of((ppath, 0)) if ppath else sup.root
+                ct = caller.blocks[cbb]["term"]
+                direct = any(lab == "call" and m[0] == path for lab, m in sup.edges((ppath, cbb)))
+                if direct and not ct["dest"]["pr"]:
+                    k = (ppath, ct["dest"]["l"])
+                    if k not in seen:
+                        seen.add(k)
+                        work.append(k)
+    return seen
+
+
+def switches_on_carriers(sup, carr):
+    """Switch nodes whose discriminant is `discriminant(x)` (or x itself for bool/int) for a carrier x.
+    Returns [(node, term, how)] with how in {'discr','value'}."""
+    out = []
+    for n in sup.nodes():
+        b = sup.body_of(n)
+        blk = b.blocks[n[1]]
+        t = blk["term"]
+        if t["k"] != "switch" or not is_place(t["discr"]):
+            continue
+        dl = t["discr"]["p"]["l"]
+        if (n[0], dl) in carr and not t["discr"]["p"]["pr"]:
+            out.append((n, t, "value"))
+            continue
+        for s in blk["stmts"]:
+            if s["k"] == "assign" and not s["p"]["pr"] and s["p"]["l"] == dl and s["rv"]["k"] == "discr":
+                if (n[0], s["rv"]["p"]["l"]) in carr:
+                    out.append((n, t, "discr"))
+    return out
